@@ -1458,6 +1458,7 @@ func (x *Exec) callerSideAcquire(cfg *Config, env *SpecEnv, c *FuncContract, acq
 		}
 		if x.c != nil && x.c.Options["old"] == "section" {
 			cfg.old = cfg.st.clone()
+		x.resnapLoopGhost(cfg)
 		}
 		return
 	}
@@ -1969,11 +1970,18 @@ func (x *Exec) frameChecks(cfg *Config, env *SpecEnv) {
 				}
 			}
 			if cur.S != old.S {
-				eqs = append(eqs, Eq(cur, old))
+				if strings.HasPrefix(name, "$calls!") || strings.HasPrefix(name, "$callret!") {
+					eqs = append(eqs, Eq(cur, old))
+				} else {
+					// once / atomic / channel state of objects created by this
+					// invocation is its own business
+					o := Term{"o!gs", SInt}
+					eqs = append(eqs, Forall([]Term{o}, Implies(x.preexisting(o), Eq(Select(cur, o), Select(old, o)))))
+				}
 			}
 		}
 		if changed {
-			x.oblige(cfg, "frame", "ghost call/once/atomic/channel state (contract is silent about it)", False, nil, token.NoPos)
+			x.oblige(cfg, "frame", "ghost call/once/atomic/channel state (contract is silent about it; a callee or loop forgot it wholesale)", False, nil, token.NoPos)
 		} else if len(eqs) > 0 {
 			x.oblige(cfg, "frame", "ghost call/once/atomic/channel state (contract is silent about it)", And(eqs...), nil, token.NoPos)
 		}
